@@ -90,6 +90,11 @@ def generate(rng, tier):
         n = g.range(1, 10) if t % 4 else g.range(11, maxn)
         fam = fams[t % len(fams)]
         emit(n, fam, "degenerate", guess=("exact" if t % 2 == 0 else "zero"), rhs=("plain" if t % 2 == 0 else "zero"))
+    # zero right-hand side with a NON-zero guess: the solution is 0; "accepted as solved" must not be granted without
+    # looking at the residual (the code's tolerance is absolute here)   [added after seeded mutation C09-3]
+    for t in range(12 if quick else 60):
+        n = g.range(2, 9) if t % 3 else g.range(10, maxn)
+        emit(n, fams[t % len(fams)], "zero-rhs-guess", guess="random", rhs="zero")
     return finalize(cases, PID)
 
 case_from_json = iterlib.case_from_json
